@@ -135,7 +135,9 @@ func (s *Server) RegisterService(sd *grpc.ServiceDesc, ss interface{}) {
 func (s *Server) Serve(ctx context.Context, rw RpcReadWriter) error {
 	h := newHandler(s.ctx, s, rw)
 	err := h.serve(ctx)
+	vEmit("srv.serve.exit", h, 0, 0, "")
 	h.cancelAndWaitForStreams()
+	vEmit("srv.serve.ret", h, 0, 0, "")
 	return err
 }
 
@@ -202,6 +204,7 @@ func (h *handler) serve(clientCtx context.Context) error {
 		for {
 			select {
 			case rpc := <-h.writeChan:
+				vGate("srv.writer.window", h, rpc.GetId())
 				err := h.rw.Write(h.ctx, rpc)
 				if err != nil {
 					h.cancel(fmt.Errorf("write error: %v", err))
@@ -417,6 +420,7 @@ func (h *handler) processStreamingRpc(
 	sd *grpc.StreamDesc,
 	rpc *goatorepo.Rpc,
 ) error {
+	vGate("srv.forward.window", h, rpc.GetId())
 	h.mu.Lock()
 	defer h.mu.Unlock()
 
@@ -470,6 +474,7 @@ func (h *handler) processStreamingRpc(
 		done:   make(chan struct{}, 1),
 		cancel: cancel,
 	}
+	vEmit("srv.reg", h, streamId, len(h.streams), "")
 
 	go h.runStream(info, sd, rpc, streamId, ctx, h.streams[streamId])
 	return nil
@@ -546,6 +551,7 @@ func (h *handler) runStream(
 	}
 
 	err = stream.SendTrailer(appErr)
+	vGate("srv.stream.exit", h, streamId)
 	if err != nil {
 		return err
 	}
@@ -563,6 +569,7 @@ func (h *handler) unregisterStream(id uint64) {
 	}
 
 	delete(h.streams, id)
+	vEmit("srv.unreg", h, id, len(h.streams), "")
 }
 
 // resetStream instructs the caller to tear down and restart the stream. We call
